@@ -309,7 +309,8 @@ fn main() {
     // the hashes must agree and a HashSet must find one through the other; the answer of `==` itself is C02.
     let mut nb: Vec<BigInt> = (1i64..=12).chain([52, 99, 1000]).map(BigInt::from).collect();
     nb.extend([(BigInt::from(1) << 32usize) + 1, (BigInt::from(1) << 64usize) - 1, (BigInt::from(1) << 64usize) + 10, pow10(19) + 7, big(&filler_digits(run.seed(), 40, 40))]);
-    let ne = near_equal_pairs(tier.pick(40, 60), &nb);
+    let mut ne = near_equal_pairs(tier.pick(40, 60), &nb);
+    ne.extend(near_equal_pairs_extended(run.seed()));
     run.bound("S7_near_equal_pairs", ne.len());
     run.par("S7 a == b implies equal hashes (near-equal pairs)", (ne.len() + 255) / 256, |blk| {
         let mut t = Tally::default();
